@@ -207,12 +207,17 @@ func (r *srState) closeServer() {
 }
 
 func (r *srState) destroy() {
-	defer func() { recover() }()
-	r.closeServer()
-	if r.mini != nil {
-		r.mini.Close()
-		r.mini = nil
-	}
+	func() { // whatever happens while closing, the directory and the redis server are removed
+		defer func() { recover() }()
+		r.closeServer()
+	}()
+	func() {
+		defer func() { recover() }()
+		if r.mini != nil {
+			r.mini.Close()
+			r.mini = nil
+		}
+	}()
 	if r.dir != "" {
 		os.RemoveAll(r.dir)
 		r.dir = ""
@@ -360,6 +365,14 @@ func init() {
 		}
 		r := &srState{backend: a[0], caps: kvs(a[1:]), dir: dir, log: &crashLog{ids: map[string]bool{}}}
 		st.m["sr"] = r
+		defer func() {
+			if p := recover(); p != nil {
+				r.destroy()
+				delete(st.m, "sr")
+				delete(st.m, "bk")
+				panic(p)
+			}
+		}()
 		fail := func(msg string) string {
 			r.destroy()
 			delete(st.m, "sr")
